@@ -168,7 +168,7 @@ theorem statement_partial (O : Oracles) (câ‚ câ‚‚ : ClassSp) (h : ClassSame câ‚
 
 /-! ### former findings (now theorems) and counterexamples for the open ones, checked by the kernel -/
 
-def noRe : Oracles := âŸ¨fun _ _ => falseâŸ©
+def noRe : Oracles := { reMatch := fun _ _ => false }
 def fInt : Sp := .fcls .int
 def fStr : Sp := .fcls .str
 def annF (ty : Sp) (dflt : DefaultSp := .none) (inOpt : Bool := false) : FieldSp :=
